@@ -11,7 +11,7 @@ for f in ("patch.diff", "demo.diff", "README.md"):
 log = open("/tmp/seed/%s.verify.log" % id_).read()
 readme = open(os.path.join(src, "README.md")).read()
 meta = {
-    "property": id_,
+    "property": id_.rstrip("abcdefgh"),
     "breaks": "see README.md (written by the independent sub-agent that produced the change)",
     "needs_to_manifest": "see README.md section on what it needs in order to manifest",
     "package": pkg,
